@@ -393,17 +393,33 @@ def main(tier: str, seed: int, only: str | None = None, jobs: int = 16) -> int:
     if only:
         units = [u for u in units if only in u.uid]
     results = run_units(units, jobs)
-    chk.level = "exploration"
+    chk.level = "proof"
     chk.trusted_base = [
-        "ghost ECU at the transport level: DSC(s) in session c is positive and moves to s iff "
-        "(c,s) in T, otherwise a negative response and no state change; ECUReset returns to the "
-        "default session",
-        "the transition to the default session exists from every session (ISO 14229-1)",
-        "reading of 'never requested': never probed; the default session as stack base is exempt",
+        "pyvc VC generator (Hoare rule per loop with sidecar invariants, container element "
+        "invariants checked at every append), z3 5.1.0",
+        "ghost ECU = the statement's ECU model: DSC(s) in session c is answered positively and "
+        "moves to s iff T(c, s) for an uninterpreted relation T, otherwise a negative response and "
+        "no state change; the ECU always answers (timeouts are outside the statement's model)",
+        "contract of sorted(entries, key=session): a permutation with non-decreasing keys",
+        "stand-in only: the transition to the default session exists from every session "
+        "(ISO 14229-1); 'never requested' read as 'never probed' (the default session as stack "
+        "base is exempt)",
     ]
     chk.assumptions = [
-        "BOUNDED STAND-IN: icontract postcondition evaluated at run time on the real "
-        "SessionsScanner.main + real ECU client over a complete family of small graphs; "
-        "nothing is counted as proved",
+        "PROVED (no bound on graph, depth, skip list; both settings of thorough / with_hooks / "
+        "reset / database): soundness of every reported session and stack, skipped sessions are "
+        "never probed and never on a stack, per-iteration coverage (every non-skipped session "
+        "1..0x7F probed exactly once from every processed stack in the stack's last session; a "
+        "frontier stack is left out only if its last session was searched before), termination "
+        "variant depth - current_depth, report = strictly increasing distinct sessions each stored "
+        "with its own stack; helper contracts (set_session_with_hooks_handling, _recover_stack, "
+        "ECU.set_session in scan mode)",
+        "NOT machine-checked: the induction over BFS levels from the per-iteration coverage "
+        "obligations to 'every session within depth changes is reported' - this half is covered "
+        "by the BOUNDED STAND-IN units standin/scan/* only (icontract postcondition at run time "
+        "on the real scanner + real ECU client over a complete family of small graphs), labelled "
+        "bounded and not counted as proved",
+        "exception handlers of main for TimeoutError / other exceptions during a probe are not "
+        "explored (the statement's ECU always answers)",
     ]
     return chk.finish(results, native_replay, native_search)
